@@ -27,7 +27,7 @@ def xtOf (s : String) : Nat :=
 def showVal (v : Option Int) : String :=
   match v with
   | none => "?"
-  | some x => if x == fillFloatMarker then "FILLF" else toString x
+  | some x => if x == fillFloatMarker then "FILLF" else if x == unspecMarker then "?" else toString x
 
 def hexNib (n : Nat) : Char := if n < 10 then Char.ofNat (48 + n) else Char.ofNat (87 + n)
 def hexOfBytes (bs : List Int) : String :=
@@ -355,9 +355,12 @@ def localOp (w : World) (r : Nat) (t : List String) : World × String :=
       match planRW w r q false with
       | .error e => (w, s!"{e} buf=ok")
       | .ok (vi, lin, mr) =>
-        let w := w.store vi lin q.vals
+        let v := w.s.vars.getD vi default
+        let cv := q.vals.map (convPut w.fmt v.xtype q.mt v.fillValue)
+        let w := w.store vi lin (cv.map (·.1))
         let rk := w.rank r
-        (w.setRank r { rk with numrecs := max rk.numrecs mr }, "0 buf=ok")
+        let e : Int := if cv.any (·.2) then NC_ERANGE else 0
+        (w.setRank r { rk with numrecs := max rk.numrecs mr }, s!"{e} buf=ok")
   | "get" :: form :: c :: rest =>
     let coll := c == "c"
     match modeErrBlocking w coll false, parseRW form rest with
@@ -367,8 +370,12 @@ def localOp (w : World) (r : Nat) (t : List String) : World × String :=
       match planRW w r q true with
       | .error e => (w, s!"{e} gap=ok")
       | .ok (vi, lin, _) =>
-        let vals := w.load vi lin
-        (w, "0 gap=ok :" ++ (if vals.isEmpty then "" else " " ++ showVals vals))
+        let v := w.s.vars.getD vi default
+        let raw := w.load vi lin
+        let cv := raw.map (fun o => o.map (convGet w.fmt v.xtype q.mt))
+        let vals := cv.map (fun o => o.map (·.1))
+        let e : Int := if cv.any (fun o => match o with | some (_, true) => true | _ => false) then NC_ERANGE else 0
+        (w, s!"{e} gap=ok :" ++ (if vals.isEmpty then "" else " " ++ showVals vals))
   | ["waitall", c, kind] =>
     let coll := c == "c"
     if !w.isOpen then (w, s!"{NC_EBADID}") else
